@@ -80,7 +80,21 @@ func (j *jitterWatch) Stop() time.Duration {
 	return time.Duration(atomic.LoadInt64(&j.max))
 }
 
+// A verdict that rests on timing (the scan took longer than the bound, or a proxy that answers at once was missed because the
+// probe ran into its --timeout of 60..200 ms) must repeat in three runs of the same case: on a saturated machine no client
+// meets such deadlines.
 func c09CmdCheck(c c09CmdCase) *kit.Verdict {
+	var v *kit.Verdict
+	for i := 0; i < 3; i++ {
+		var soft bool
+		if v, soft = c09CmdCheckOnce(c); !soft {
+			return v
+		}
+	}
+	return v
+}
+
+func c09CmdCheckOnce(c c09CmdCase) (vv *kit.Verdict, timingOnly bool) {
 	v := &kit.Verdict{Units: c.Targets}
 	v.Label("server=%s", c.Server)
 	T := time.Duration(c.TimeoutMs) * time.Millisecond
@@ -101,12 +115,12 @@ func c09CmdCheck(c c09CmdCase) *kit.Verdict {
 	if c.Server == "backlog" {
 		port = c09cBacklogPort()
 		if port == 0 {
-			return &kit.Verdict{Inconclusive: true}
+			return &kit.Verdict{Inconclusive: true}, false
 		}
 	} else {
 		l, err := net.Listen("tcp4", "0.0.0.0:0")
 		if err != nil {
-			return &kit.Verdict{Inconclusive: true}
+			return &kit.Verdict{Inconclusive: true}, false
 		}
 		ln = l
 		port = l.Addr().(*net.TCPAddr).Port
@@ -138,18 +152,18 @@ func c09CmdCheck(c c09CmdCase) *kit.Verdict {
 	late := jw.Stop()
 	line := "sx " + strings.Join(args, " ")
 	if res.Hung {
-		return v.Failf("%s did not return within 60 s\n%s", line, clipN(res.Goroutines, 2000))
+		return v.Failf("%s did not return within 60 s\n%s", line, clipN(res.Goroutines, 2000)), false
 	}
 	if res.Err != nil {
-		return v.Failf("%s: %v", line, res.Err)
+		return v.Failf("%s: %v", line, res.Err), false
 	}
 	if late > 250*time.Millisecond {
-		return &kit.Verdict{Inconclusive: true} // the machine stalled: an upper bound cannot be judged
+		return &kit.Verdict{Inconclusive: true}, false // the machine stalled: an upper bound cannot be judged
 	}
 	elapsed := res.Returned.Sub(res.Started)
 	bound := T + 3*T + 10*time.Millisecond + time.Second
 	if elapsed > bound {
-		return v.Failf("%s\ntook %v although every probe must end within connect timeout %v + three data timeouts (all probes run concurrently; bound incl. exit delay and 1 s slack: %v; worst scheduler lateness observed %v)", line, elapsed, T, bound, late)
+		return v.Failf("%s\ntook %v although every probe must end within connect timeout %v + three data timeouts (all probes run concurrently; bound incl. exit delay and 1 s slack: %v; worst scheduler lateness observed %v)", line, elapsed, T, bound, late), true
 	}
 	nrec := strings.Count(res.Stdout, "\n")
 	want := 0
@@ -157,10 +171,10 @@ func c09CmdCheck(c c09CmdCase) *kit.Verdict {
 		want = 1 << uint(32-bits)
 	}
 	if nrec != want {
-		return v.Failf("%s: %d records, expected %d", line, nrec, want)
+		return v.Failf("%s: %d records, expected %d", line, nrec, want), nrec < want
 	}
 	v.NonTrivial = true
-	return v
+	return v, false
 }
 
 func TestC09Command(t *testing.T) {
